@@ -411,7 +411,7 @@ func createFilesInsideTarGz(info *nfpm.Info, tw *tar.Writer, sizep *int64) (err 
 		case files.TypeDir, files.TypeImplicitDir:
 			err = tw.WriteHeader(&tar.Header{
 				Name:     file.Destination,
-				Mode:     int64(file.FileInfo.Mode),
+				Mode:     file.UnixMode(),
 				Typeflag: tar.TypeDir,
 				Uname:    file.FileInfo.Owner,
 				Gname:    file.FileInfo.Group,
@@ -447,7 +447,7 @@ func copyToTarAndDigest(file *files.Content, tw *tar.Writer, sizep *int64) error
 
 	// tar.FileInfoHeader only uses file.Mode().Perm() which masks the mode with
 	// 0o777 which we don't want because we want to be able to set the suid bit.
-	header.Mode = int64(file.Mode())
+	header.Mode = file.UnixMode()
 	header.Name = files.AsRelativePath(file.Destination)
 	header.Uname = file.FileInfo.Owner
 	header.Gname = file.FileInfo.Group
